@@ -2,7 +2,7 @@
 import json, os, shutil, sys
 pid = sys.argv[1]
 suffix = sys.argv[2] if len(sys.argv) > 2 else 'a'
-src = f'/tmp/mut_{pid}'
+src = sys.argv[3] if len(sys.argv) > 3 else f'/tmp/mut_{pid}'
 dst = f'/verif/seeded/{pid}_{suffix}'
 os.makedirs(dst, exist_ok=True)
 for f in ('patch.diff', 'demo.py', 'notes.md'):
